@@ -656,3 +656,8 @@ LEVEL_NOTE = LEVEL_NOTE + " " + "model_is_code_interval_new (+ _shape, _diff, _s
 # ---- model = code theorems for Interval.__init__ / components (appended) ----
 TRUSTED = [t for t in TRUSTED] + ["model_is_code_interval_init / _interval_init_shape / _interval_make / _instance_ep: Interval.__init__ is translated from /repo up to precise_diff (endpoint normalisation through the translated pendulum.instance -> DateTime.instance(tz=UTC) / pendulum.date, native rebuilds WITH fold, _invert, the absolute swap; its attribute stores become the returned tuple: recognised shape) and proved equal to the endpoint part of interval_make; interval_make as a WHOLE record = translated __new__ delta + duration_of_float_seconds + translated __init__; one endpoint = instance_ep (identity convention: 0 = None, pendulum.UTC = 1 = UTC_ID). Still hand-written + pinned: the link of the `-` operand normalisation to normalise_operand for a native AWARE operand carrying a FOREIGN tzinfo (zoneinfo key / utcoffset-derived fixed offset / tzname: _safe_timezone's non-pendulum branches are not translated; the object model only has pendulum timezone objects), __abs__, __neg__, __contains__, as_duration, _getstate, dt_sub / dt_rsub as whole records"]
 LEVEL_NOTE = LEVEL_NOTE + " " + "model_is_code_interval_init / _interval_init_shape / _interval_make / _instance_ep: Interval.__init__ is translated from /repo up to precise_diff (endpoint normalisation through the translated pendulum.instance -> DateTime.instance(tz=UTC) / pendulum.date, native rebuilds WITH fold, _invert, the absolute swap; its attribute stores become the returned tuple: recognised shape) and proved equal to the endpoint part of interval_make; interval_make as a WHOLE record = translated __new__ delta + duration_of_float_seconds + translated __init__; one endpoint = instance_ep (identity convention: 0 = None, pendulum.UTC = 1 = UTC_ID). Still hand-written + pinned: the link of the `-` operand normalisation to normalise_operand for a native AWARE operand carrying a FOREIGN tzinfo (zoneinfo key / utcoffset-derived fixed offset / tzname: _safe_timezone's non-pendulum branches are not translated; the object model only has pendulum timezone objects), __abs__, __neg__, __contains__, as_duration, _getstate, dt_sub / dt_rsub as whole records" + "."
+
+
+# ---- last batch of model = code theorems (appended) ----
+TRUSTED = [t for t in TRUSTED] + ['model_is_code_normalise_operand / _dt_sub / _dt_rsub / _dt_sub_delta / _dt_rsub_delta / _interval_abs / _interval_neg / _neg_of_absolute_interval: the operand normalisation of the translated DateTime.__sub__ / __rsub__ IS normalise_operand of the model, dt_sub / dt_rsub as whole results = interval_make on the normalised operand, Interval.__abs__ / __neg__ translated (= ival_abs / ival_neg at the level of the delta; -i of an absolute Interval is not negated: read off the code). Still hand-written + pinned: __contains__ (Gen/IntervalRange.v py_contains is a separate translation), as_duration, _getstate, the native AWARE operand whose tzinfo is FOREIGN (its canonical object comes from C01 model_is_code_safe_timezone, not yet composed with these theorems)']
+LEVEL_NOTE = LEVEL_NOTE + " " + 'model_is_code_normalise_operand / _dt_sub / _dt_rsub / _dt_sub_delta / _dt_rsub_delta / _interval_abs / _interval_neg / _neg_of_absolute_interval: the operand normalisation of the translated DateTime.__sub__ / __rsub__ IS normalise_operand of the model, dt_sub / dt_rsub as whole results = interval_make on the normalised operand, Interval.__abs__ / __neg__ translated (= ival_abs / ival_neg at the level of the delta; -i of an absolute Interval is not negated: read off the code). Still hand-written + pinned: __contains__ (Gen/IntervalRange.v py_contains is a separate translation), as_duration, _getstate, the native AWARE operand whose tzinfo is FOREIGN (its canonical object comes from C01 model_is_code_safe_timezone, not yet composed with these theorems)' + "."
